@@ -36,6 +36,7 @@ def evalNodeQ (f : Fmt) (r : Rat → Rat) (ins : List Rat) (env : List Rat) (n :
   | .or => do some (q2b (decide ((← arg 0) ≠ 0 ∨ (← arg 1) ≠ 0)))
   | .not => do some (q2b (decide ((← arg 0) = 0)))
   | .select => do let c ← arg 0; let a ← arg 1; let b ← arg 2; some (if c ≠ 0 then a else b)
+  | .isfinite => do let _ ← arg 0; some (q2b true)      -- every rational is finite (overflow-free idealisation)
   | _ => none
 
 def evalNodesQ (f : Fmt) (r : Rat → Rat) (ins : List Rat) : List Node → List Rat → Option (List Rat)
